@@ -151,6 +151,37 @@ Theorem store_add_values_kept : forall W n s d data h h' r,
 Proof. exact store_add_values_l. Qed.
 Print Assumptions store_add_values_kept.
 
+(* ---- every operation of the case language, and every HISTORY of them ----
+   (public_op excludes only assignment to / deletion of private attributes)      *)
+Theorem unchanged_ns_values : forall h h', unchanged_ns h h' -> values_kept h h'.
+Proof. exact unchanged_ns_values_l. Qed.
+Print Assumptions unchanged_ns_values.
+
+Theorem frame_every_operation : forall W o e h h' r,
+  public_op o = true -> exec as_written W o e h = (h', r) -> unchanged_ns h h'.
+Proof. exact exec_frame_l. Qed.
+Print Assumptions frame_every_operation.
+
+Theorem frame_every_history : forall W ops e h e' h',
+  forallb public_op ops = true -> run_state as_written W ops e h = (e', h') ->
+  unchanged_ns h h' /\ values_kept h h' /\ exists e2, e' = e ++ e2.
+Proof. exact history_l. Qed.
+Print Assumptions frame_every_history.
+
+(* between any two points of a history, every value defined at the earlier point is kept *)
+Theorem values_kept_between_steps : forall W ops1 ops2 e h e1 h1 e2 h2,
+  forallb public_op (ops1 ++ ops2) = true ->
+  run_state as_written W ops1 e h = (e1, h1) -> run_state as_written W (ops1 ++ ops2) e h = (e2, h2) ->
+  values_kept h1 h2.
+Proof. exact history_steps_l. Qed.
+Print Assumptions values_kept_between_steps.
+
+(* the `m:` field the correspondence compares is provably empty *)
+Theorem mutation_report_empty : forall h h' e,
+  values_kept h h' -> Forall (fun v => value FUEL h v <> None) e -> changed h h' e = [].
+Proof. exact report_empty_l. Qed.
+Print Assumptions mutation_report_empty.
+
 (* ---- deep copy: equal, disjoint, and changes nothing ---- *)
 Theorem deepcopy_equal_disjoint : forall n v h t, value n h v = Some t ->
   exists h' c, deepcopy n v h = (h', RVal c) /\ value n h' c = Some t /\ all_new h h' c /\ unchanged h h'.
